@@ -77,6 +77,27 @@ let run (args : (string * string) list) : string =
       | Some ((pn, pa), pf) -> add "propsback" (ok (pn = st0.s_nodes && pa = st0.s_arcs && pf = f))
       | None -> add "propsback" "FAIL(unparsable)")
    | _ -> ());
+  (* the expected graph of a CLI transform step, recomputed with the proved specification
+     functions of C09 from the source graph *)
+  (match get_opt args "xop", get_opt args "xsrc" with
+   | Some xop, Some xsrc ->
+     let src = List.map (List.map n_of_int) (lists_of_string xsrc) in
+     let nl l = List.map n_of_int (ints_of_string l) in
+     let expected =
+       match String.split_on_char ':' xop with
+       | ["id"] -> Some src
+       | ["transpose"] -> Some (Model.XformM.xop_spec Model.XformM.XTranspose src)
+       | ["symm"] -> Some (Model.XformM.xop_spec (Model.XformM.XSymm false) src)
+       | ["symmnl"] -> Some (Model.XformM.xop_spec (Model.XformM.XSymm true) src)
+       | ["perm"; l] -> Some (Model.XformM.xop_spec (Model.XformM.XPermute (nl l)) src)
+       | ["perm"] -> Some (Model.XformM.xop_spec (Model.XformM.XPermute []) src)
+       | ["map"; m; l] -> Some (Model.XformM.xop_spec (Model.XformM.XMap (nl l, n_of_int (int_of_string m))) src)
+       | ["map"; m] -> Some (Model.XformM.xop_spec (Model.XformM.XMap ([], n_of_int (int_of_string m))) src)
+       | _ -> None in
+     (match expected with
+      | Some e -> add "xspec" (ok (e = g))
+      | None -> add "xspec" "FAIL(unknown-xop)")
+   | _ -> ());
   (* 1. decode with the model decoder (pure list-of-bits reader when small) *)
   let decoded =
     if glen <= 400000 then begin
